@@ -613,19 +613,26 @@ GenSelect(j) ==
 WrapPool == {Arith("*", Col("$value"), Two), Arith("+", One, Col("$value")), NegE(Col("$value")), Arith("-", Lit(IntV(100)), Arith("*", Col("$value"), Lit(IntV(10)))),
              Arith("/", Col("$value"), Two), CmpE(">", Col("$value"), One), Call("abs", <<Arith("-", Col("$value"), Two)>>), Arith("*", Col("$value"), Zero)}
 NumericAggs == {"count_star", "count", "count_distinct", "sum", "min", "max"}
-GenAggPool(j) == AllAggs \cup (IF j = "none" THEN {} ELSE {ItE("sum", W, "sw"), ItE("max", W, "whi"), ItC("count", "w", "cw"), ItE("min", Col("u.k"), "uklo")})
+\* aggregates over expressions, TEXT arguments, conditional arguments (NULL on some rows)
+MoreAggs == {ItE("sum", Arith("*", V, Two), "s2"), ItE("max", Call("length", <<K>>), "ml"), ItC("count_distinct", "k", "dk"),
+             ItE("min", CaseE(<<<<VPos, V>>>>, Lit(Null)), "mc"), ItE("array_agg", K, "ak"), ItE("avg", Arith("+", V, One), "a1"),
+             ItE("max", Call("upper", <<K>>), "uk"), ItE("sum", Call("abs", <<V>>), "sa1"), ItE("bool_or", IsE(TRUE, V, Lit(Null)), "bn"),
+             [a |-> "percentile", e |-> Arith("*", V, Two), pn |-> 3, pd |-> 4, as |-> "p75", wrap |-> NoE],
+             [a |-> "string_agg", e |-> Call("upper", <<K>>), delim |-> <<45>>, as |-> "su", wrap |-> NoE]}
+GenAggPool(j) == AllAggs \cup MoreAggs \cup (IF j = "none" THEN {} ELSE {ItE("sum", W, "sw"), ItE("max", W, "whi"), ItC("count", "w", "cw"), ItE("min", Col("u.k"), "uklo")})
 MaybeWrap(it) == IF it.a \in NumericAggs /\ (("e" \in DOMAIN it) => it.e \in {V, W}) /\ RandomElement(1..10) <= 3 THEN [it EXCEPT !.wrap = RandomElement(WrapPool)] ELSE it
-GenGroups(j) == {<<>>, <<K>>, <<V>>, <<K, V>>, <<Arith("+", V, Zero)>>, <<K, Arith("*", V, One)>>} \cup (IF j = "none" THEN {} ELSE {<<W>>, <<K, W>>})
-KeyItemOf(e) == IF e = K THEN ItE("key", K, "k") ELSE IF e = V THEN ItE("key", V, "v") ELSE ItE("key", W, "w")
+GenGroups(j) == {<<>>, <<K>>, <<V>>, <<K, V>>, <<Arith("+", V, Zero)>>, <<K, Arith("*", V, One)>>, <<Call("length", <<K>>)>>, <<VPos>>, <<V, K>>, <<ArrKey>>} \cup (IF j = "none" THEN {} ELSE {<<W>>, <<K, W>>})
+KeyItemOf(e) == IF e = K THEN ItE("key", K, "k") ELSE IF e = V THEN ItE("key", V, "v") ELSE IF e = W THEN ItE("key", W, "w") ELSE ItE("key", e, "g")
 GenHavings(group) ==
   {HAgg(CountStar, ">=", IntV(2)), HAgg(SumV, ">", IntV(1)), HAgg(CountV, "=", IntV(0)), HAgg(MaxOfV, "<", IntV(3)),
+   HAgg(ItC("count_distinct", "v", "d"), ">=", IntV(2)), HAgg(MinK, "=", A), HAgg(ItE("avg", V, "a"), ">=", IntV(1)),
    [h |-> "and", l |-> HAgg(CountStar, ">=", IntV(1)), r |-> HAgg(CountStar, "<=", IntV(2))],
    [h |-> "or", l |-> HAgg(MinOfV, ">", IntV(1)), r |-> HAgg(SumV, "<", IntV(0))]}
   \cup (IF \E i \in 1..Len(group) : group[i] = K
         THEN {[h |-> "keynull", e |-> K, neg |-> TRUE], [h |-> "or", l |-> [h |-> "key", e |-> K, f |-> "=", c |-> A], r |-> HAgg(CountStar, ">", IntV(1))]} ELSE {})
 GenAgg(j) ==
   LET group == RandomElement(GenGroups(j))
-      shown == SelectSeq(group, LAMBDA e : e \in {K, V, W} /\ RandomElement(1..10) <= 8)
+      shown == SelectSeq(group, LAMBDA e : IF e \in {K, V, W} THEN RandomElement(1..10) <= 8 ELSE (Len(group) = 1 /\ RandomElement(1..10) <= 5))    \* an expression key is shown half of the time
       keys == [i \in 1..Len(shown) |-> KeyItemOf(shown[i])]
       aggs0 == SetSeq(RandomSubset(RandomElement(1..3), GenAggPool(j)))
       aggs == [i \in 1..Len(aggs0) |-> MaybeWrap(aggs0[i])]
